@@ -754,9 +754,9 @@ from vp import fuzz as _fuzz   # noqa: E402
 SUBS = [
     Sub("exhaustive", check_pair, custom=exhaustive_pairs, workers_quick=4, workers_thorough=16,
         budget_quick=120, budget_thorough=1800),
-    Sub("random_pairs", check_pair, strategy=strat_pairs, quick=5000, thorough=60000, workers_quick=2),
-    Sub("evr", check_evr, strategy=strat_evr, quick=1300, thorough=20000, workers_quick=2),
-    Sub("history", check_history, strategy=strat_history, quick=700, thorough=15000, workers_quick=2),
+    Sub("random_pairs", check_pair, strategy=strat_pairs, quick=2500, thorough=60000, workers_quick=4),
+    Sub("evr", check_evr, strategy=strat_evr, quick=650, thorough=20000, workers_quick=4),
+    Sub("history", check_history, strategy=strat_history, quick=350, thorough=15000, workers_quick=4),
     Sub("atheris", check_pair, custom=_fuzz.campaign(PROPERTY, "atheris", "fuzz_decode", ["insights.parsers.rpm_vercmp"],
                                                       runs_quick=60000, runs_thorough=1500000, max_len=64),
         workers_quick=2, workers_thorough=16, budget_quick=60, budget_thorough=1500),
